@@ -398,6 +398,7 @@ func allChecksRaw() []*Check {
 				{Name: "C16.verify", Pkg: "main", Entry: "VerifC16Verify", NoNative: true, Expect: []string{"C16.wire.verify", "C16.code.verify.open", "C16.code.verify.exitcoder"}},
 				{Name: "C16.code", Pkg: "main", Entry: "VerifC16Code", NoNative: true, Expect: []string{"C16.code.libfail", "C16.code.success"}},
 				{Name: "C16.main", Pkg: "main", Entry: "VerifC16Main", NoNative: true, Expect: []string{"C16.main.usage", "C16.main.success", "C16.main.strayargs"}},
+				{Name: "C16.template", Pkg: "main", Entry: "VerifC16Template", NoNative: true, Expect: []string{"C16.code.template.writefail", "C16.code.template.ok", "C16.wire.template", "C16.template.end"}},
 			},
 			Bounds: "all flag combinations of the three actions: --format as an arbitrary string, --massive, --massive-timeout as an arbitrary duration, --file as an arbitrary path (stdin for empty or '-'), --dry-run, 0..2 arbitrary --extension values, arbitrary --target-dir, --strict; os.Open succeeds or fails; the library call succeeds or fails; main() with App.Run returning nil or a non-ExitCoder error. --watch is excluded (ticker loop never returns). Outside: urfave/cli's own parsing of the command line, the real process on closed stdout//dev/full (library side: C14), 'template | output'.",
 			Assume: []string{"urfave/cli: Context getters return symbolic flag values memoised by name; App.Run obeys the documented exit-coder contract (an ExitCoder error never comes back: HandleExitCoder exits with its code); cli.Exit / exitError are the real code", "gtree.OutputFromMarkdown / MkdirFromMarkdown / VerifyFromMarkdown are recording stubs; the options they receive are applied by the real gtree.newConfig and compared with what the flags denote", "os.Open, os.Exit, os.Stdin/Stdout/Stderr, color.Output are engine stubs"},
@@ -407,7 +408,7 @@ func allChecksRaw() []*Check {
 			Files: []string{"gtree/common.go", "gtree/c17.go"},
 			Quick: []Job{
 				{Name: "C17.any.n4", Pkg: "gtree", Entry: "VerifC17", N: 4, FSModel: true, Wasm: true, Expect: []string{"C17.acc.any/text", "C17.acc.any/json", "C17.acc.any/dryrun", "C17.out.any/text", "C17.out.any/json", "C17.out.any/dryrun"}},
-				{Name: "C17.wf.n4", Pkg: "gtree", Entry: "VerifC17WF", N: 4, FSModel: true, Wasm: true, Expect: []string{"C17.out.wf/text", "C17.out.wf/json", "C17.out.wf/dryrun"}},
+				{Name: "C17.wf.n4", Pkg: "gtree", Entry: "VerifC17WF", N: 4, FSModel: true, Wasm: true, Expect: []string{"C17.out.wf/text", "C17.out.wf/json", "C17.out.wf/dryrun", "C17.out.wf/after-refusal"}},
 				{Name: "C17.names.2x2", Pkg: "gtree", Entry: "VerifC17Names", N: 22, Wasm: true, Expect: []string{"C17.acc.names/text", "C17.acc.names/json", "C17.acc.names/dryrun", "C17.out.names/text", "C17.out.names/json", "C17.out.names/dryrun"}},
 				{Name: "C17.long.full", Pkg: "gtree", Entry: "VerifC17Long", N: 1, Wasm: true, RealParse: true, RealScan: true, Expect: []string{"C17.acc.long/text", "C17.out.long/text", "C17.long.end"}},
 				{Name: "C17.units", Pkg: "gtree", Entry: "VerifC17Units", N: 0, Wasm: true, RealParse: true, Expect: []string{"C17.acc.units/text", "C17.out.units/text", "C17.units.end"}},
@@ -415,7 +416,7 @@ func allChecksRaw() []*Check {
 			},
 			Thorough: []Job{
 				{Name: "C17.any.n5", Pkg: "gtree", Entry: "VerifC17", N: 5, FSModel: true, Wasm: true, Expect: []string{"C17.acc.any/text", "C17.acc.any/json", "C17.acc.any/dryrun", "C17.out.any/text", "C17.out.any/json", "C17.out.any/dryrun"}},
-				{Name: "C17.wf.n6", Pkg: "gtree", Entry: "VerifC17WF", N: 6, FSModel: true, Wasm: true, Expect: []string{"C17.out.wf/text", "C17.out.wf/json", "C17.out.wf/dryrun"}},
+				{Name: "C17.wf.n6", Pkg: "gtree", Entry: "VerifC17WF", N: 6, FSModel: true, Wasm: true, Expect: []string{"C17.out.wf/text", "C17.out.wf/json", "C17.out.wf/dryrun", "C17.out.wf/after-refusal"}},
 				{Name: "C17.names.3x2", Pkg: "gtree", Entry: "VerifC17Names", N: 32, Wasm: true, Expect: []string{"C17.acc.names/text", "C17.acc.names/json", "C17.acc.names/dryrun", "C17.out.names/text", "C17.out.names/json", "C17.out.names/dryrun"}},
 				{Name: "C17.names.2x3", Pkg: "gtree", Entry: "VerifC17Names", N: 23, Wasm: true, Expect: []string{"C17.acc.names/text", "C17.acc.names/json", "C17.acc.names/dryrun", "C17.out.names/text", "C17.out.names/json", "C17.out.names/dryrun"}},
 				{Name: "C17.long.full", Pkg: "gtree", Entry: "VerifC17Long", N: 1, Wasm: true, RealParse: true, RealScan: true, Expect: []string{"C17.acc.long/text", "C17.out.long/text", "C17.long.end"}},
